@@ -303,6 +303,39 @@ def _check_predict(ctx, f):
               ": the direction of an input feature says nothing about the "
               "learned score, which is always higher-is-better", node=call)
     if sname and tname:
+        # every pass through the per-model loop takes exactly one entry off
+        # each per-fold list, whichever way it leaves the try block:
+        # otherwise the lists drift apart and a later fold is calibrated
+        # with another fold's targets
+        first = loop.body[0]
+        while isinstance(first, (ast.Try, ast.With)):
+            first = first.body[0]
+        body_first = cfg.node_of(first).id
+        hdr = cfg.node_of(loop).id
+        for lname in (sname, tname):
+            pops = [n for n in ast.walk(loop) if isinstance(n, ast.Call)
+                    and isinstance(n.func, ast.Attribute)
+                    and n.func.attr == "pop" and isinstance(
+                        n.func.value, ast.Name)
+                    and n.func.value.id == lname]
+            pnodes = {cfg.node_of(cfg.stmt_of(p_)).id for p_ in pops}
+            at_least = cfg.every_path_passes(body_first, hdr, pnodes) \
+                or body_first in pnodes
+            twice = False
+            for a_ in pnodes:
+                reach = cfg.reachable_after(a_, avoid={hdr})
+                if (pnodes - {a_}) & reach:
+                    twice = True
+            why = ""
+            if not at_least:
+                wp = cfg.witness_path(body_first, hdr, pnodes)
+                why = (f"a pass through the loop leaves '{lname}' "
+                       "untouched: " + cfg.describe_path(wp or []))
+            elif twice:
+                why = f"a pass through the loop pops '{lname}' twice"
+            ctx.check(at_least and not twice, "C11b-one-fold-per-pass", f,
+                      f"every pass through the per-model loop pops exactly "
+                      f"one fold from '{lname}'", why, node=loop)
         # both lists are created as one empty list per fold and filled per
         # enumerate index of the same fold slices
         fill_s = _filled_by(f, du, T, sname)
